@@ -84,6 +84,24 @@ def oracle_script(s, out, strict=False):
             ow = bool(shown) and not shown.endswith(b'\n')
         owed = ow
         return True
+    def flush_locked():
+        """SetConsoleLocked(false): everything held back comes out now, in order; of the silent commands only a trailing one keeps its line"""
+        nonlocal locked, pend, owed
+        locked = False
+        printing = [b for b in pend if b[1] != 0 or b[2]]
+        keep = [b for i, b in enumerate(pend) if b[1] != 0 or b[2] or i == len(pend) - 1]
+        # blank-line state of the BUFFER after its last text: the C++ prints "\n" in front of the buffer when that is unterminated
+        buf_owed = False
+        if printing:
+            lb = printing[-1]
+            buf_owed = bool(lb[2]) and bool(lb[3]) and not lb[3].endswith(b'\n')
+        if buf_owed: expect(b'\n', 'newline in front of the flushed buffer')
+        ow = False
+        for (k2, code2, raw2, shown2, f2, t2) in keep:
+            if not block(k2, code2, raw2, shown2, f2, t2, ow): break
+            ow = owed
+        owed = buf_owed
+        pend = []
     for c in s.calls:
         if bad: break
         if c[0] == 'added': total += 1
@@ -103,22 +121,7 @@ def oracle_script(s, out, strict=False):
             e = s.edges[k]
             shown = py_strip(o) if (b'\x1b' in o) else o
             if e.console and locked:
-                # unlock: everything held back comes out now, in order; of the silent commands only a trailing one keeps its line
-                locked = False
-                printing = [b for b in pend if b[1] != 0 or b[2]]
-                keep = [b for i, b in enumerate(pend) if b[1] != 0 or b[2] or i == len(pend) - 1]
-                # blank-line state of the BUFFER after its last text: the C++ prints "\n" in front of the buffer when that is unterminated
-                buf_owed = False
-                if printing:
-                    lb = printing[-1]
-                    buf_owed = bool(lb[2]) and bool(lb[3]) and not lb[3].endswith(b'\n')
-                if buf_owed: expect(b'\n', 'newline in front of the flushed buffer')
-                ow = False
-                for (k2, code2, raw2, shown2, f2, t2) in keep:
-                    if not block(k2, code2, raw2, shown2, f2, t2, ow): break
-                    ow = owed
-                owed = buf_owed
-                pend = []
+                flush_locked()
                 # the console edge's own FAILED block / output (no status line)
                 if not bad: body(k, code, bool(o), shown, owed)
             elif locked:
@@ -126,8 +129,9 @@ def oracle_script(s, out, strict=False):
             else:
                 block(k, code, bool(o), shown, finished, total, owed)
         elif c[0] == 'buildfinished':
-            if locked:
-                bad.append('oracle: build finished under lock (not generated)'); break
+            # Build() can return while a console command still runs (a later command could not be started): BuildFinished unlocks the
+            # console, so the output held back under the lock is shown now -- none of it may be lost
+            if locked: flush_locked()
             if owed: expect(b'\n', 'final newline'); owed = False
         elif c[0] == 'info':
             expect(b'ninja: ' + c[1] + b'\n', 'Info line')
@@ -140,10 +144,13 @@ def oracle_eligible(s):
     if any(c[0] == 'info' and b'\x00' in c[1] for c in s.calls): return False
     # keep to the protocol of Builder::Build(): every build ends with nothing running and no nested builds under lock
     running = set()
-    for c in s.calls:
+    for i, c in enumerate(s.calls):
         if c[0] == 'started': running.add(c[1])
         elif c[0] == 'finished': running.discard(c[1])
-        elif c[0] in ('buildfinished', 'buildstarted') and running: return False
+        elif c[0] == 'buildstarted' and running: return False
+        elif c[0] == 'buildfinished' and running:
+            # an aborted build (commands still running, their results are never reported): accepted as the END of a script only
+            return all(x[0] in ('info', 'error', 'warning') for x in s.calls[i + 1:])
     return True
 
 # ------------------------------------------------------------------------------ (iii) the real binary
@@ -544,6 +551,21 @@ def run(ctx):
             if not e.cmd or b'\x00' in e.cmd: e.cmd = b'cmd%d --flag' % s.edges.index(e)
         s.calls = [c for c in s.calls if c[0] not in ('warning', 'error')]
         scripts.append(s)
+    # Build() returning while the console command still runs (a later command could not be started): commands that finished under the
+    # lock have their output held back; BuildFinished must release it
+    for i in range(60 if quick else 600):
+        s = sm.Script('U%d' % i); m = rnd.randrange(1, 4)
+        s.edges.append(sm.SEdge(b'CONSOLE.', b'interactive --tool', True, [b'con']))
+        for k in range(1, m + 1): s.edges.append(sm.SEdge(b'STEP%d.' % k if rnd.random() < 0.8 else b'', b'cmd%d --flag' % k, False, [b'out%d' % k]))
+        for k in range(m + 1): s.calls.append(('added', k))
+        s.calls.append(('buildstarted',))
+        order = list(range(1, m + 1)); pre = rnd.randrange(0, m + 1)
+        for k in order[:pre]: s.calls += [('started', k), ('finished', k, 0, sm.rand_output(rnd) if rnd.random() < 0.6 else b'')]
+        s.calls.append(('started', 0))
+        for k in order[pre:]:
+            s.calls += [('started', k), ('finished', k, rnd.choice([0, 0, 1, 3]), rnd.choice([b'held back %d\n' % k, b'', sm.rand_output(rnd), b'no newline %d' % k]))]
+        s.calls.append(('buildfinished',))
+        scripts.append(s)
     scripts += [sm.gen_arbitrary(rnd, 'A%d' % i) for i in range(n * 2 // 10)]
     try:
         scripts += sm.engine_scripts(rnd, 300 if quick else 3000, ctx.seed)
@@ -562,7 +584,7 @@ def run(ctx):
 
     # ---- (ii) block oracle on the real StatusPrinter's bytes
     norc = 0; samples = []; glued_seq = 0
-    for s, out, irc in good:
+    for s, out, irc in good + [(s_, s_.impl_out, 0) for s_, _t in bad if getattr(s_, 'impl_out', None) is not None]:
         if not oracle_eligible(s): continue
         norc += 1
         b = oracle_script(s, out)
